@@ -2,6 +2,7 @@ from __future__ import absolute_import
 
 import pkgutil
 from collections import Counter, OrderedDict
+from decimal import Decimal
 from importlib import import_module
 
 import six
@@ -200,34 +201,56 @@ class Program(object):
         # type: () -> str
         """ Returns a string with commands formatted in the MPilot command file syntax. """
 
+        def quote(value):
+            # type: (Any) -> str
+            """ Quotes a string so that the parser reads back exactly the same text """
+
+            value = six.text_type(value)
+            for char, escaped in (
+                ("\\", "\\\\"),
+                ('"', '\\"'),
+                ("\n", "\\n"),
+                ("\r", "\\r"),
+                ("\t", "\\t"),
+            ):
+                value = value.replace(char, escaped)
+            return '"{}"'.format(value)
+
         def serialize_value(value, argument, command):
             # type: (Any, Argument, Command) -> str
 
-            param = command.inputs[argument.name]
+            if isinstance(value, Argument):
+                value = value.value
 
-            if isinstance(param, ResultParameter) or (
-                isinstance(param, ListParameter)
-                and isinstance(param.value_type, ResultParameter)
-            ):
+            if isinstance(value, Command):
+                return str(value.result_name)
+            if isinstance(value, (list, tuple)):
+                return "[{}]".format(
+                    ", ".join(serialize_value(x, argument, command) for x in value)
+                )
+
+            param = command.inputs.get(argument.name)
+            while isinstance(param, ListParameter):
+                param = param.value_type
+
+            if isinstance(param, ResultParameter):
                 return str(value)
             if isinstance(value, six.string_types):
-                return '"{}"'.format(value)
+                return quote(value)
+            if isinstance(value, float) and "e" in repr(value):
+                # The parser only reads decimal notation
+                text = format(Decimal(repr(value)), "f")
+                return text if "." in text else text + ".0"
             else:
                 return str(value)
 
         def serialize_argument(argument, command):
             # type: (Argument, Command) -> str
 
-            if isinstance(argument, ListArgument):
-                return "[{}]".format(
-                    ", ".join(
-                        serialize_value(x, argument, command) for x in argument.value
-                    )
-                )
-            elif isinstance(argument.value, dict):
+            if isinstance(argument.value, dict):
                 return "[\n{}\n    ]".format(
                     ",\n".join(
-                        '        "{}": "{}"'.format(key, value)
+                        "        {}: {}".format(quote(key), quote(value))
                         for key, value in argument.value.items()
                     )
                 )
